@@ -44,6 +44,43 @@ mutual
     | (k, v) :: rest => simpleExpr k && simpleExpr v && simplePairs rest
 end
 
+mutual
+  /-- the expression fragment of the refinement theorem: `simpleExpr` plus calls `f(args)` of a name
+  with positional and keyword arguments -/
+  def coreExpr : Expr → Bool
+    | .const _ => true
+    | .var _ => true
+    | .unop _ e => coreExpr e
+    | .binop _ l r => coreExpr l && coreExpr r
+    | .cmp e ops => decide (2 ≤ ops.length) && coreExpr e && coreChain ops
+    | .ife c t none => coreExpr c && coreExpr t
+    | .ife c t (some f) => coreExpr c && coreExpr t && coreExpr f
+    | .filter _ e args => coreExpr e && coreArgs args
+    | .test _ e args => coreExpr e && coreArgs args
+    | .getattr e _ => coreExpr e
+    | .getitem e i => coreExpr e && coreExpr i
+    | .call (.var _) args => coreCallArgs args
+    | .call _ _ => false
+    | .list items => coreList items
+    | .map kvs => corePairs kvs
+  def coreChain : List (CmpOp × Expr) → Bool
+    | [] => true
+    | (_, e) :: rest => coreExpr e && coreChain rest
+  def coreArgs : List (Option String × Expr) → Bool
+    | [] => true
+    | (none, e) :: rest => coreExpr e && coreArgs rest
+    | (some _, _) :: _ => false
+  def coreCallArgs : List (Option String × Expr) → Bool
+    | [] => true
+    | (_, e) :: rest => coreExpr e && coreCallArgs rest
+  def coreList : List Expr → Bool
+    | [] => true
+    | e :: rest => coreExpr e && coreList rest
+  def corePairs : List (Expr × Expr) → Bool
+    | [] => true
+    | (k, v) :: rest => coreExpr k && coreExpr v && corePairs rest
+end
+
 /-- `emit_compare` -/
 def cmpInstrs : CmpOp → List Instr
   | .eq => [.eq] | .ne => [.ne] | .lt => [.lt] | .le => [.lte]
@@ -102,6 +139,18 @@ mutual
           let rx := relExpr x base a
           let ri := relExpr i (base + rx.1.length) rx.2
           (rx.1 ++ ri.1 ++ [.getItem], ri.2)
+        | .call (.var x) args =>
+          -- `compile_call` of a function call: positional arguments, then the keyword arguments as one
+          -- value (a constant if all values are literals, else built at run time)
+          let rp := relPosArgs args base a
+          match kwArgs args with
+          | [] => (rp.1 ++ [.callFunction x (posArgs args).length], rp.2)
+          | k0 :: ks =>
+            match staticKwargs (k0 :: ks) with
+            | some m => (rp.1 ++ [.loadConst (.kwargs m), .callFunction x ((posArgs args).length + 1)], rp.2)
+            | none =>
+              let rk := relKwArgs args (base + rp.1.length) rp.2
+              (rp.1 ++ rk.1 ++ [.buildKwargs (k0 :: ks).length, .callFunction x ((posArgs args).length + 1)], rk.2)
         | .call _ _ => ([], a.markOof)
         | .list items => ((relList items base a).1 ++ [.buildList (some items.length)], (relList items base a).2)
         | .map kvs => ((relPairs kvs base a).1 ++ [.buildMap kvs.length], (relPairs kvs base a).2)
@@ -120,6 +169,22 @@ mutual
       let rr := relArgs rest (base + re.1.length) re.2
       (re.1 ++ rr.1, rr.2)
     | (some _, _) :: _, _, a => ([], a.markOof)
+  /-- the positional arguments of a call -/
+  def relPosArgs : List (Option String × Expr) → Nat → Aux → List Instr × Aux
+    | [], _, a => ([], a)
+    | (none, e) :: rest, base, a =>
+      let re := relExpr e base a
+      let rr := relPosArgs rest (base + re.1.length) re.2
+      (re.1 ++ rr.1, rr.2)
+    | (some _, _) :: rest, base, a => relPosArgs rest base a
+  /-- the keyword arguments of a call as `LoadConst key; value` pairs -/
+  def relKwArgs : List (Option String × Expr) → Nat → Aux → List Instr × Aux
+    | [], _, a => ([], a)
+    | (none, _) :: rest, base, a => relKwArgs rest base a
+    | (some k, e) :: rest, base, a =>
+      let re := relExpr e (base + 1) a
+      let rr := relKwArgs rest (base + 1 + re.1.length) re.2
+      ([.loadConst (.str k)] ++ re.1 ++ rr.1, rr.2)
   def relList : List Expr → Nat → Aux → List Instr × Aux
     | [], _, a => ([], a)
     | e :: rest, base, a =>
@@ -369,21 +434,39 @@ theorem chainJumps_cons (op : CmpOp) (e : Expr) (o2 : CmpOp × Expr) (rest : Lis
       (b + (relExpr e b a).1.length + 1) :: chainJumps (o2 :: rest) (b + (relExpr e b a).1.length + 2) (relExpr e b a).2 := by
   simp [chainJumps]
 
+/-- `compile_call` for a function call `x(args)` -/
+theorem cExpr_call_var (x : String) (args : List (Option String × Expr)) (g : CG) :
+    cExpr (.call (.var x) args) g =
+      match kwArgs args with
+      | [] => (cPosArgs args g).add (.callFunction x (posArgs args).length)
+      | k0 :: ks =>
+        match staticKwargs (k0 :: ks) with
+        | some m => ((cPosArgs args g).add (.loadConst (.kwargs m))).add (.callFunction x ((posArgs args).length + 1))
+        | none => ((cKwArgs args (cPosArgs args g)).add (.buildKwargs (k0 :: ks).length)).add
+            (.callFunction x ((posArgs args).length + 1)) := by
+  conv => lhs; unfold cExpr
+  simp only [asConst, callKind, callName]
+  cases kwArgs args with
+  | nil => simp
+  | cons k0 ks =>
+    simp only
+    cases staticKwargs (k0 :: ks) <;> simp
+
 mutual
-theorem cExpr_eq_rel : ∀ (e : Expr) (g : CG), simpleExpr e = true →
+theorem cExpr_eq_core : ∀ (e : Expr) (g : CG), coreExpr e = true →
     cExpr e g = g.extend (relExpr e g.next g.aux)
   | .const l, g, _ => by unfold cExpr relExpr; simp [asConst, CG.add_eq_extend]
   | .var x, g, _ => by unfold cExpr relExpr; simp [asConst, CG.add_eq_extend]
   | .unop .not x, g, h => by
-    have ih := cExpr_eq_rel x g (by simpa [simpleExpr] using h)
+    have ih := cExpr_eq_core x g (by simpa [coreExpr] using h)
     unfold cExpr relExpr
     cases hc : asConst (.unop .not x) <;> simp [CG.add_eq_extend, CG.markOof_eq_extend, ih, CG.extend_extend]
   | .unop .neg x, g, h => by
-    have ih := cExpr_eq_rel x g (by simpa [simpleExpr] using h)
+    have ih := cExpr_eq_core x g (by simpa [coreExpr] using h)
     unfold cExpr relExpr
     cases hc : asConst (.unop .neg x) <;> simp [CG.add_eq_extend, CG.markOof_eq_extend, ih, CG.extend_extend]
   | .binop op l r, g, h => by
-    have hs : simpleExpr l = true ∧ simpleExpr r = true := by simpa [simpleExpr] using h
+    have hs : coreExpr l = true ∧ coreExpr r = true := by simpa [coreExpr] using h
     unfold cExpr relExpr
     cases hc : asConst (.binop op l r) with
     | val v => simp [CG.add_eq_extend]
@@ -392,28 +475,28 @@ theorem cExpr_eq_rel : ∀ (e : Expr) (g : CG), simpleExpr e = true →
       cases op
       case and =>
         simp only
-        rw [cExpr_eq_rel l g.startScBool hs.1, cExpr_eq_rel r _ hs.2, scBool_block]
+        rw [cExpr_eq_core l g.startScBool hs.1, cExpr_eq_core r _ hs.2, scBool_block]
         simp [Nat.add_assoc]
       case or =>
         simp only
-        rw [cExpr_eq_rel l g.startScBool hs.1, cExpr_eq_rel r _ hs.2, scBool_block]
+        rw [cExpr_eq_core l g.startScBool hs.1, cExpr_eq_core r _ hs.2, scBool_block]
         simp [Nat.add_assoc]
       all_goals
         simp only
-        rw [cExpr_eq_rel l g hs.1, cExpr_eq_rel r _ hs.2]
+        rw [cExpr_eq_core l g hs.1, cExpr_eq_core r _ hs.2]
         simp [CG.extend_extend, Nat.add_assoc]
-  | .cmp x [], g, h => by simp [simpleExpr] at h
-  | .cmp x [_], g, h => by simp [simpleExpr] at h
+  | .cmp x [], g, h => by simp [coreExpr] at h
+  | .cmp x [_], g, h => by simp [coreExpr] at h
   | .cmp x (o1 :: o2 :: rest), g, h => by
-    have hs : simpleExpr x = true ∧ simpleChain (o1 :: o2 :: rest) = true := by
-      have := h; simp [simpleExpr] at this; exact ⟨this.1, this.2⟩
+    have hs : coreExpr x = true ∧ coreChain (o1 :: o2 :: rest) = true := by
+      have := h; simp [coreExpr] at this; exact ⟨this.1, this.2⟩
     unfold cExpr
     cases hc : asConst (.cmp x (o1 :: o2 :: rest)) with
     | val v => unfold relExpr; simp [hc, CG.add_eq_extend]
     | oof => unfold relExpr; simp [hc, CG.markOof_eq_extend]
     | no =>
       simp only
-      rw [cExpr_eq_rel x g hs.1, cChain_eq_rel (o1 :: o2 :: rest) [] _ hs.2]
+      rw [cExpr_eq_core x g hs.1, cChain_eq_core (o1 :: o2 :: rest) [] _ hs.2]
       obtain ⟨op1, e1⟩ := o1
       -- the list of clean-up jumps is not empty
       simp only [List.nil_append, CG.next_extend, CG.extend_aux, chainJumps_cons]
@@ -423,108 +506,219 @@ theorem cExpr_eq_rel : ∀ (e : Expr) (g : CG), simpleExpr e = true →
       conv => rhs; unfold relExpr
       simp [hc, Nat.add_assoc]
   | .ife c t none, g, h => by
-    have hs : simpleExpr c = true ∧ simpleExpr t = true := by simpa [simpleExpr] using h
+    have hs : coreExpr c = true ∧ coreExpr t = true := by simpa [coreExpr] using h
     unfold cExpr relExpr
     cases hc : asConst (.ife c t none) with
     | val v => simp [CG.add_eq_extend]
     | oof => simp [CG.markOof_eq_extend]
     | no =>
       simp only
-      rw [cExpr_eq_rel c g hs.1, cExpr_eq_rel t _ hs.2, CG.add_eq_extend, if_block]
+      rw [cExpr_eq_core c g hs.1, cExpr_eq_core t _ hs.2, CG.add_eq_extend, if_block]
       simp [Nat.add_assoc]
   | .ife c t (some f), g, h => by
-    have hs : (simpleExpr c = true ∧ simpleExpr t = true) ∧ simpleExpr f = true := by simpa [simpleExpr] using h
+    have hs : (coreExpr c = true ∧ coreExpr t = true) ∧ coreExpr f = true := by simpa [coreExpr] using h
     unfold cExpr relExpr
     cases hc : asConst (.ife c t (some f)) with
     | val v => simp [CG.add_eq_extend]
     | oof => simp [CG.markOof_eq_extend]
     | no =>
       simp only
-      rw [cExpr_eq_rel c g hs.1.1, cExpr_eq_rel t _ hs.1.2, cExpr_eq_rel f _ hs.2, if_block]
+      rw [cExpr_eq_core c g hs.1.1, cExpr_eq_core t _ hs.1.2, cExpr_eq_core f _ hs.2, if_block]
       simp [Nat.add_assoc]
   | .filter name x args, g, h => by
-    have hs : simpleExpr x = true ∧ simpleArgs args = true := by simpa [simpleExpr] using h
+    have hs : coreExpr x = true ∧ coreArgs args = true := by simpa [coreExpr] using h
     unfold cExpr relExpr
     cases hc : asConst (.filter name x args) with
     | val v => simp [CG.add_eq_extend]
     | oof => simp [CG.markOof_eq_extend]
     | no =>
       simp only
-      rw [cExpr_eq_rel x g hs.1, cArgs_eq_rel args _ hs.2]
+      rw [cExpr_eq_core x g hs.1, cArgs_eq_core args _ hs.2]
       simp [CG.filterId, CG.extend, CG.add, CG.next]
   | .test name x args, g, h => by
-    have hs : simpleExpr x = true ∧ simpleArgs args = true := by simpa [simpleExpr] using h
+    have hs : coreExpr x = true ∧ coreArgs args = true := by simpa [coreExpr] using h
     unfold cExpr relExpr
     cases hc : asConst (.test name x args) with
     | val v => simp [CG.add_eq_extend]
     | oof => simp [CG.markOof_eq_extend]
     | no =>
       simp only
-      rw [cExpr_eq_rel x g hs.1, cArgs_eq_rel args _ hs.2]
+      rw [cExpr_eq_core x g hs.1, cArgs_eq_core args _ hs.2]
       simp [CG.testId, CG.extend, CG.add, CG.next]
   | .getattr x name, g, h => by
-    have ih := cExpr_eq_rel x g (by simpa [simpleExpr] using h)
+    have ih := cExpr_eq_core x g (by simpa [coreExpr] using h)
     unfold cExpr relExpr
     cases hc : asConst (.getattr x name) <;> simp [CG.add_eq_extend, CG.markOof_eq_extend, ih, CG.extend_extend]
   | .getitem x i, g, h => by
-    have hs : simpleExpr x = true ∧ simpleExpr i = true := by simpa [simpleExpr] using h
+    have hs : coreExpr x = true ∧ coreExpr i = true := by simpa [coreExpr] using h
     unfold cExpr relExpr
     cases hc : asConst (.getitem x i) with
     | val v => simp [CG.add_eq_extend]
     | oof => simp [CG.markOof_eq_extend]
     | no =>
       simp only
-      rw [cExpr_eq_rel x g hs.1, cExpr_eq_rel i _ hs.2]
+      rw [cExpr_eq_core x g hs.1, cExpr_eq_core i _ hs.2]
       simp [CG.extend_extend, Nat.add_assoc]
-  | .call _ _, _, h => by simp [simpleExpr] at h
+  | .call (.var x) args, g, h => by
+    have hs : coreCallArgs args = true := by simpa [coreExpr] using h
+    rw [cExpr_call_var]
+    unfold relExpr
+    simp only [asConst]
+    rw [cPosArgs_eq_core args g hs]
+    cases hk : kwArgs args with
+    | nil => simp [CG.extend, CG.add]
+    | cons k0 ks =>
+      simp only
+      cases hst : staticKwargs (k0 :: ks) with
+      | some m => simp [CG.extend, CG.add]
+      | none =>
+        simp only
+        rw [cKwArgs_eq_core args _ hs]
+        simp [CG.extend, CG.add, CG.next]
+  | .call (.const _) _, _, h => by simp [coreExpr] at h
+  | .call (.unop _ _) _, _, h => by simp [coreExpr] at h
+  | .call (.binop _ _ _) _, _, h => by simp [coreExpr] at h
+  | .call (.cmp _ _) _, _, h => by simp [coreExpr] at h
+  | .call (.ife _ _ _) _, _, h => by simp [coreExpr] at h
+  | .call (.filter _ _ _) _, _, h => by simp [coreExpr] at h
+  | .call (.test _ _ _) _, _, h => by simp [coreExpr] at h
+  | .call (.getattr _ _) _, _, h => by simp [coreExpr] at h
+  | .call (.getitem _ _) _, _, h => by simp [coreExpr] at h
+  | .call (.call _ _) _, _, h => by simp [coreExpr] at h
+  | .call (.list _) _, _, h => by simp [coreExpr] at h
+  | .call (.map _) _, _, h => by simp [coreExpr] at h
   | .list items, g, h => by
-    have ih := cList_eq_rel items g (by simpa [simpleExpr] using h)
+    have ih := cList_eq_core items g (by simpa [coreExpr] using h)
     unfold cExpr relExpr
     cases hc : asConst (.list items) <;> simp [CG.add_eq_extend, CG.markOof_eq_extend, ih, CG.extend_extend]
   | .map kvs, g, h => by
-    have ih := cPairs_eq_rel kvs g (by simpa [simpleExpr] using h)
+    have ih := cPairs_eq_core kvs g (by simpa [coreExpr] using h)
     unfold cExpr relExpr
     cases hc : asConst (.map kvs) <;> simp [CG.add_eq_extend, CG.markOof_eq_extend, ih, CG.extend_extend]
-theorem cChain_eq_rel : ∀ (ops : List (CmpOp × Expr)) (jumps : List Nat) (g : CG), simpleChain ops = true →
+theorem cChain_eq_core : ∀ (ops : List (CmpOp × Expr)) (jumps : List Nat) (g : CG), coreChain ops = true →
     cChain ops jumps g =
       (g.extend (relChain ops g.next g.aux unpatched), jumps ++ chainJumps ops g.next g.aux)
   | [], jumps, g, _ => by simp [cChain, relChain, chainJumps, CG.extend]
   | [(op, e)], jumps, g, h => by
-    have hs : simpleExpr e = true := by simpa [simpleChain] using h
+    have hs : coreExpr e = true := by simpa [coreChain] using h
     simp only [cChain, relChain, chainJumps, List.append_nil]
-    rw [cExpr_eq_rel e g hs, emitCompare_eq, CG.extend_extend]
+    rw [cExpr_eq_core e g hs, emitCompare_eq, CG.extend_extend]
     simp
   | (op, e) :: o2 :: rest, jumps, g, h => by
-    have hs : simpleExpr e = true ∧ simpleChain (o2 :: rest) = true := by simpa [simpleChain] using h
+    have hs : coreExpr e = true ∧ coreChain (o2 :: rest) = true := by simpa [coreChain] using h
     simp only [cChain, relChain, chainJumps]
-    rw [cExpr_eq_rel e g hs.1, CG.extend_add, CG.extend_add, CG.next_extend]
-    rw [cChain_eq_rel (o2 :: rest) _ _ hs.2]
+    rw [cExpr_eq_core e g hs.1, CG.extend_add, CG.extend_add, CG.next_extend]
+    rw [cChain_eq_core (o2 :: rest) _ _ hs.2]
     simp [CG.extend_extend, Nat.add_assoc]
-theorem cArgs_eq_rel : ∀ (args : List (Option String × Expr)) (g : CG), simpleArgs args = true →
+theorem cArgs_eq_core : ∀ (args : List (Option String × Expr)) (g : CG), coreArgs args = true →
     cArgs args g = g.extend (relArgs args g.next g.aux)
   | [], g, _ => by simp [cArgs, relArgs, CG.extend]
   | (none, e) :: rest, g, h => by
-    have hs : simpleExpr e = true ∧ simpleArgs rest = true := by simpa [simpleArgs] using h
+    have hs : coreExpr e = true ∧ coreArgs rest = true := by simpa [coreArgs] using h
     simp only [cArgs, relArgs]
-    rw [cExpr_eq_rel e g hs.1, cArgs_eq_rel rest _ hs.2]
+    rw [cExpr_eq_core e g hs.1, cArgs_eq_core rest _ hs.2]
     simp [CG.extend_extend]
-  | (some _, _) :: _, _, h => by simp [simpleArgs] at h
-theorem cList_eq_rel : ∀ (es : List Expr) (g : CG), simpleList es = true →
+  | (some _, _) :: _, _, h => by simp [coreArgs] at h
+theorem cList_eq_core : ∀ (es : List Expr) (g : CG), coreList es = true →
     cList es g = g.extend (relList es g.next g.aux)
   | [], g, _ => by simp [cList, relList, CG.extend]
   | e :: rest, g, h => by
-    have hs : simpleExpr e = true ∧ simpleList rest = true := by simpa [simpleList] using h
+    have hs : coreExpr e = true ∧ coreList rest = true := by simpa [coreList] using h
     simp only [cList, relList]
-    rw [cExpr_eq_rel e g hs.1, cList_eq_rel rest _ hs.2]
+    rw [cExpr_eq_core e g hs.1, cList_eq_core rest _ hs.2]
     simp [CG.extend_extend]
-theorem cPairs_eq_rel : ∀ (kvs : List (Expr × Expr)) (g : CG), simplePairs kvs = true →
+theorem cPairs_eq_core : ∀ (kvs : List (Expr × Expr)) (g : CG), corePairs kvs = true →
     cPairs kvs g = g.extend (relPairs kvs g.next g.aux)
   | [], g, _ => by simp [cPairs, relPairs, CG.extend]
   | (k, v) :: rest, g, h => by
-    have hs : (simpleExpr k = true ∧ simpleExpr v = true) ∧ simplePairs rest = true := by simpa [simplePairs] using h
+    have hs : (coreExpr k = true ∧ coreExpr v = true) ∧ corePairs rest = true := by simpa [corePairs] using h
     simp only [cPairs, relPairs]
-    rw [cExpr_eq_rel k g hs.1.1, cExpr_eq_rel v _ hs.1.2, cPairs_eq_rel rest _ hs.2]
+    rw [cExpr_eq_core k g hs.1.1, cExpr_eq_core v _ hs.1.2, cPairs_eq_core rest _ hs.2]
     simp [CG.extend_extend, Nat.add_assoc]
+theorem cPosArgs_eq_core : ∀ (args : List (Option String × Expr)) (g : CG), coreCallArgs args = true →
+    cPosArgs args g = g.extend (relPosArgs args g.next g.aux)
+  | [], g, _ => by simp [cPosArgs, relPosArgs, CG.extend]
+  | (none, e) :: rest, g, h => by
+    have hs : coreExpr e = true ∧ coreCallArgs rest = true := by simpa [coreCallArgs] using h
+    simp only [cPosArgs, relPosArgs]
+    rw [cExpr_eq_core e g hs.1, cPosArgs_eq_core rest _ hs.2]
+    simp [CG.extend_extend]
+  | (some _, e) :: rest, g, h => by
+    have hs : coreExpr e = true ∧ coreCallArgs rest = true := by simpa [coreCallArgs] using h
+    simp only [cPosArgs, relPosArgs]
+    exact cPosArgs_eq_core rest g hs.2
+theorem cKwArgs_eq_core : ∀ (args : List (Option String × Expr)) (g : CG), coreCallArgs args = true →
+    cKwArgs args g = g.extend (relKwArgs args g.next g.aux)
+  | [], g, _ => by simp [cKwArgs, relKwArgs, CG.extend]
+  | (none, e) :: rest, g, h => by
+    have hs : coreExpr e = true ∧ coreCallArgs rest = true := by simpa [coreCallArgs] using h
+    simp only [cKwArgs, relKwArgs]
+    exact cKwArgs_eq_core rest g hs.2
+  | (some k, e) :: rest, g, h => by
+    have hs : coreExpr e = true ∧ coreCallArgs rest = true := by simpa [coreCallArgs] using h
+    simp only [cKwArgs, relKwArgs]
+    rw [CG.add_eq_extend, cExpr_eq_core e _ hs.1, cKwArgs_eq_core rest _ hs.2]
+    simp [CG.extend_extend, Nat.add_assoc, Nat.add_comm 1]
 end
+
+/-! ## the call-free fragment `simpleExpr` is part of `coreExpr` -/
+
+mutual
+theorem simple_core : ∀ (e : Expr), simpleExpr e = true → coreExpr e = true
+  | .const _, _ => rfl
+  | .var _, _ => rfl
+  | .unop _ e, h => by simp only [simpleExpr] at h; simp only [coreExpr]; exact simple_core e h
+  | .binop _ l r, h => by
+    simp only [simpleExpr, Bool.and_eq_true] at h; simp only [coreExpr, Bool.and_eq_true]
+    exact ⟨simple_core l h.1, simple_core r h.2⟩
+  | .cmp e ops, h => by
+    simp only [simpleExpr, Bool.and_eq_true] at h; simp only [coreExpr, Bool.and_eq_true]
+    exact ⟨⟨h.1.1, simple_core e h.1.2⟩, simple_coreChain ops h.2⟩
+  | .ife c t none, h => by
+    simp only [simpleExpr, Bool.and_eq_true] at h; simp only [coreExpr, Bool.and_eq_true]
+    exact ⟨simple_core c h.1, simple_core t h.2⟩
+  | .ife c t (some f), h => by
+    simp only [simpleExpr, Bool.and_eq_true] at h; simp only [coreExpr, Bool.and_eq_true]
+    exact ⟨⟨simple_core c h.1.1, simple_core t h.1.2⟩, simple_core f h.2⟩
+  | .filter _ e args, h => by
+    simp only [simpleExpr, Bool.and_eq_true] at h; simp only [coreExpr, Bool.and_eq_true]
+    exact ⟨simple_core e h.1, simple_coreArgs args h.2⟩
+  | .test _ e args, h => by
+    simp only [simpleExpr, Bool.and_eq_true] at h; simp only [coreExpr, Bool.and_eq_true]
+    exact ⟨simple_core e h.1, simple_coreArgs args h.2⟩
+  | .getattr e _, h => by simp only [simpleExpr] at h; simp only [coreExpr]; exact simple_core e h
+  | .getitem e i, h => by
+    simp only [simpleExpr, Bool.and_eq_true] at h; simp only [coreExpr, Bool.and_eq_true]
+    exact ⟨simple_core e h.1, simple_core i h.2⟩
+  | .call _ _, h => by simp [simpleExpr] at h
+  | .list items, h => by simp only [simpleExpr] at h; simp only [coreExpr]; exact simple_coreList items h
+  | .map kvs, h => by simp only [simpleExpr] at h; simp only [coreExpr]; exact simple_corePairs kvs h
+theorem simple_coreChain : ∀ (ops : List (CmpOp × Expr)), simpleChain ops = true → coreChain ops = true
+  | [], _ => rfl
+  | (_, e) :: rest, h => by
+    simp only [simpleChain, Bool.and_eq_true] at h; simp only [coreChain, Bool.and_eq_true]
+    exact ⟨simple_core e h.1, simple_coreChain rest h.2⟩
+theorem simple_coreArgs : ∀ (args : List (Option String × Expr)), simpleArgs args = true → coreArgs args = true
+  | [], _ => rfl
+  | (none, e) :: rest, h => by
+    simp only [simpleArgs, Bool.and_eq_true] at h; simp only [coreArgs, Bool.and_eq_true]
+    exact ⟨simple_core e h.1, simple_coreArgs rest h.2⟩
+  | (some _, _) :: _, h => by simp [simpleArgs] at h
+theorem simple_coreList : ∀ (es : List Expr), simpleList es = true → coreList es = true
+  | [], _ => rfl
+  | e :: rest, h => by
+    simp only [simpleList, Bool.and_eq_true] at h; simp only [coreList, Bool.and_eq_true]
+    exact ⟨simple_core e h.1, simple_coreList rest h.2⟩
+theorem simple_corePairs : ∀ (kvs : List (Expr × Expr)), simplePairs kvs = true → corePairs kvs = true
+  | [], _ => rfl
+  | (k, v) :: rest, h => by
+    simp only [simplePairs, Bool.and_eq_true] at h; simp only [corePairs, Bool.and_eq_true]
+    exact ⟨⟨simple_core k h.1.1, simple_core v h.1.2⟩, simple_corePairs rest h.2⟩
+end
+
+theorem cExpr_eq_rel (e : Expr) (g : CG) (h : simpleExpr e = true) : cExpr e g = g.extend (relExpr e g.next g.aux) :=
+  cExpr_eq_core e g (simple_core e h)
+theorem cArgs_eq_rel (args : List (Option String × Expr)) (g : CG) (h : simpleArgs args = true) :
+    cArgs args g = g.extend (relArgs args g.next g.aux) := cArgs_eq_core args g (simple_coreArgs args h)
 
 end MJ.Compile
